@@ -12,8 +12,7 @@ framework (plain model values through C19's driver ops, real functions through C
     (`SplitExonsMirror` holds without a sign condition);
   * the reflection of the GENE profile (and range) of the read-profile constructor `construct_profile_for_features`
     (Props/C11MirrorReadProfiles.lean, `mirror_dual_constructOverlapping_gene_partial`) in exactly the hypotheses of the
-    theorem, with its three witnesses: end tie of the mapped span, a known feature strictly inside another, and the
-    direction-dependent READ marks (relation `M.lists.overlapping_full`, evaluated on the witness only).
+    theorem, with its two witnesses: a known feature strictly inside another, and the direction-dependent READ marks (relation `M.lists.overlapping_full`, evaluated on the witness only).
 """
 import itertools
 
@@ -70,9 +69,14 @@ W_PROF = [({"L": 10}, {"features": [(5, 6)], "tf": [(1, 2), (5, 6)], "region": (
           ({"L": 10}, {"features": [(1, 2), (3, 4), (1, 2)], "tf": [(1, 2)], "region": (1, 2), "cmp": "equal"}),  # …duplicate…
           ({"L": 10}, {"features": [(5, 6)], "tf": [(1, 2), (5, 6)], "region": (1, 6), "cmp": "contains"})]   # …empty_exon…
 
-W_OVG = [({"L": 9}, {"kind": "intron", "known": [(1, 9)], "gene_region": (1, 9), "read": [], "mapped": (1, 5),      # intron_read_profile_end_tie_witness
+# the input of the former `intron_read_profile_end_tie_witness` (mapped span (1,5) sharing the LEFT end of the known intron
+# (1,9), shorter than the absence threshold): since the repair of overlaps_at_least (audit2-C G7) an ordinary case of the
+# relation -- it must HOLD on model and code (the pre-fix primitive keeps its witness: intron_read_profile_end_tie_buggy_witness)
+REG_OVG = [({"L": 9}, {"kind": "intron", "known": [(1, 9)], "gene_region": (1, 9), "read": [], "mapped": (1, 5),
                        "polya": -1, "polyt": -1, "d": 0, "abs_d": 10}),
-         ({"L": 100}, {"kind": "exon", "known": [(10, 60), (20, 30)], "gene_region": (10, 60), "read": [(2, 6), (51, 56)],   # overlapping_nested_features_witness
+           ({"L": 9}, {"kind": "intron", "known": [(1, 9)], "gene_region": (1, 9), "read": [], "mapped": (5, 9),
+                       "polya": -1, "polyt": -1, "d": 0, "abs_d": 10})]
+W_OVG = [({"L": 100}, {"kind": "exon", "known": [(10, 60), (20, 30)], "gene_region": (10, 60), "read": [(2, 6), (51, 56)],   # overlapping_nested_features_witness
                        "mapped": (35, 36), "polya": -1, "polyt": -1, "d": 0, "abs_d": 0})]
 W_OVF = [({"L": 100}, {"kind": "exon", "known": [(10, 20), (35, 60)], "gene_region": (35, 36), "read": [(30, 40)],           # overlapping_read_marks_direction_witness
                        "mapped": (30, 40), "polya": -1, "polyt": -1, "d": 0, "abs_d": 0})]
@@ -144,8 +148,7 @@ def ov_hypotheses(par, kw):
     if any(read[i][1] + d >= read[j][0] for i in range(len(read)) for j in range(i + 1, len(read))):   # SepBy
         return False
     if kw["kind"] == "intron":
-        m = tuple(kw["mapped"])
-        if not _wf(m) or any(T.end_tie(m, k, kw["abs_d"]) for k in known):
+        if not _wf(tuple(kw["mapped"])):
             return False
     return all(p == -1 or L + 1 - p != -1 for p in (kw["polya"], kw["polyt"]))
 
@@ -254,6 +257,7 @@ def cases(ctx):
                      ("M.lists.truncate_read_to_polya", W_TRUNC), ("M.lists.isoform_profile", W_PROF),
                      ("M.lists.overlapping_gene", W_OVG), ("M.lists.overlapping_full", W_OVF)):
         out += [(name, p, k) for p, k in ws]
+    out += [("M.lists.overlapping_gene", p, k) for p, k in REG_OVG]
     # --- truncate_read_to_polya: both tails, exhaustive over all sorted disjoint lists <= 3 over 1..U
     U = 6 if quick else 8
     lists = [l for l in G.all_sd_lists(U, 3) if l]
